@@ -219,7 +219,7 @@ def run(ctx):
     # container / blank-line / EOF combinations: lists ending in blank lines, lazy lines, definitions in containers, tables in quotes
     pre = ["", "> ", "- ", "  ", "1. ", "> - ", "- > ", ">", "   ", "    ", "\t", "> > "]
     body = ["a", "", "b", "[r]: /u", "[r]: /u 't'", "'t'", "|a|b|", "|-|-|", "|c|d|", "```", "~~~", "    c", "# h", "===", "---", "<div>",
-            "</div>", "\x0b", "\xa0", " ", "a  ", "* * *", "[r]:", "/u", "- x", "2. y", "> q", "\x0c a", "a \x0b", "|\\||x|"]
+            "</div>", "\x0b", "\xa0", " ", "a  ", "* * *", "[r]:", "/u", "- x", "2. y", "> q", "\x0c a", "a \x0b", "|\\||x|", "[r]: /u \"a\\", "b\"", "[r]: /u 'c\\", "d'", "[s]:\\", "-", "1."]
     for _ in range(ctx.scale(120000, 3000000)):
         ls = [rng.choice(pre) + rng.choice(body) for _ in range(rng.randint(1, 7))]
         src = "\n".join(ls) + rng.choice(["", "\n", "\n\n", "\n \n"])
